@@ -448,11 +448,22 @@ func lockCall(st ast.Stmt) (ast.Expr, bool, bool) {
 		return nil, false, false
 	}
 	call, ok := es.X.(*ast.CallExpr)
-	if !ok || len(call.Args) != 0 {
+	if !ok {
 		return nil, false, false
 	}
 	sel, ok := call.Fun.(*ast.SelectorExpr)
 	if !ok {
+		return nil, false, false
+	}
+	if sel.Sel.Name == "Do" && len(call.Args) == 1 {
+		// X.Do(f): if X is a sync.Once whose function is being run by a parked task, a second caller would block on
+		// the Once's internal mutex; PreLock probes it (any other type with a Do method: the probe is a no-op)
+		if !addressable(sel.X) {
+			return nil, false, false
+		}
+		return sel.X, false, true
+	}
+	if len(call.Args) != 0 {
 		return nil, false, false
 	}
 	if sel.Sel.Name != "Lock" && sel.Sel.Name != "RLock" {
@@ -669,6 +680,7 @@ package verifsim
 import (
 	"reflect"
 	"sync"
+	"unsafe"
 )
 
 // Kinds passed to Hook.
@@ -838,6 +850,15 @@ func probe(m any, read bool) bool {
 		}
 		return false
 	}
+	switch x := m.(type) {
+	case *sync.Once:
+		return probeOnce(x)
+	case **sync.Once:
+		if x == nil || *x == nil {
+			return true
+		}
+		return probeOnce(*x)
+	}
 	// generic: pointer (possibly to pointer / interface) to something with TryLock
 	v := reflect.ValueOf(m)
 	for i := 0; i < 3 && v.IsValid(); i++ {
@@ -872,6 +893,28 @@ func probe(m any, read bool) bool {
 		break
 	}
 	return true
+}
+
+// probeOnce: false while another goroutine is inside the Once's function (it holds the Once's internal mutex). The
+// field is found by name through reflection; if the layout is not the expected one the probe is a no-op.
+var onceMutexOffset = func() uintptr {
+	f, ok := reflect.TypeOf(sync.Once{}).FieldByName("m")
+	if !ok || f.Type != reflect.TypeOf(sync.Mutex{}) {
+		return ^uintptr(0)
+	}
+	return f.Offset
+}()
+
+func probeOnce(o *sync.Once) bool {
+	if onceMutexOffset == ^uintptr(0) {
+		return true
+	}
+	mu := (*sync.Mutex)(unsafe.Add(unsafe.Pointer(o), onceMutexOffset))
+	if mu.TryLock() {
+		mu.Unlock()
+		return true
+	}
+	return false
 }
 `
 
